@@ -205,3 +205,93 @@ def run(ctx):
     ctx.guard("C19.K17", "constructor fidelity", lambda: __import__("ctor").check_for(ctx, "C19", 7))
     ctx.guard("C19.R1", "generation", lambda: r1_generation(ctx))
     ctx.guard("C19.R2", "pheromone updates", lambda: r2_updates(ctx))
+    ctx.guard("C19.R3", "pheromone matrix", lambda: r3_matrix(ctx))
+
+
+def r3_matrix(ctx):
+    """K6 on the matrix type itself (R1/R2 model it by rows): for dimensions 0..3, `new` makes d*d equal trails; `m[i]`
+    and `&mut m[i]` are row i = entries i*d .. (i+1)*d of the storage (rows disjoint, together all of it) and abort for
+    i >= d; `m *= r` multiplies every entry exactly once; AcoGeneration::init installs new(problem.dimension(),
+    default_pheromones)."""
+    F = ctx.facts
+    di, ii = F.field_index(PM, "dimension"), F.field_index(PM, "inner")
+    inl = lambda k: k.startswith(GEN) or k.startswith("<" + GEN)
+    n = 0
+    bad = []
+    home = 10000
+    fnew = F.fn(PM + "::new")
+    fidx = F.fn("<%s as core::ops::index::Index<usize>>::index" % PM)
+    fidm = F.fn("<%s as core::ops::index::IndexMut<usize>>::index_mut" % PM)
+    fmul = F.fn("<%s as core::ops::arith::MulAssign<f64>>::mul_assign" % PM)
+    for d in range(0, 4):
+        it = install(Interp(fnew.body, chain(coll_oracle, std_oracle), [d, 0.25], facts=F, inline=inl, max_visits=20))
+        it.init_state = {"heap": {}, "next_vec": 0}
+        n += 1
+        for p in it.run():
+            m = p.ret
+            okk = p.end == "return" and isinstance(m, Agg) and m.name == PM and m.fields[di] == d and isinstance(m.fields[ii], Vec) \
+                and list(heap_get(it_state(p), m.fields[ii].vid)) == [0.25] * (d * d)
+            if not okk:
+                bad.append(("new", d, "does not build %d x %d trails of the initial value: %s" % (d, d, p.ret if p.end == "return" else p.end)))
+        cells = tuple(float(k + 1) for k in range(d * d))
+        for fn, nm in ((fidx, "index"), (fidm, "index_mut")):
+            for i in range(0, d + 2):
+                it = install(Interp(fn.body, chain(coll_oracle, std_oracle), [Ref(home, [], frame="root"), i], facts=F, inline=inl, max_visits=20))
+                mat = Agg("adt", PM, "PheromoneMatrix", [TOP, TOP])
+                mat.fields[di] = d
+                mat.fields[ii] = Vec("inner")
+                it.extra_env = {home: mat}
+                it.init_state = {"heap": {"inner": cells}, "next_vec": 0}
+                n += 1
+                for p in it.run():
+                    if i >= d:
+                        if p.end == "return":
+                            bad.append((nm, d, "row %d of a %d x %d matrix is handed out (%s)" % (i, d, d, p.ret)))
+                        continue
+                    r = p.ret
+                    row = None
+                    if p.end == "return" and isinstance(r, Vec) and r.vid == "inner":
+                        lo = r.lo if r.lo is not None else 0
+                        hi = r.hi if r.lo is not None else len(cells)
+                        row = list(cells[lo:hi])
+                    elif p.end == "return" and isinstance(r, Agg) and r.kind == "slice" and all(isinstance(x, HRef) and x.vid == "inner" and not x.proj for x in r.fields):
+                        row = [cells[x.idx] for x in r.fields]     # a chunk handed out element by element
+                    if row != list(cells[i * d:(i + 1) * d]):
+                        bad.append((nm, d, "row %d is %s, expected entries %d..%d of the storage" % (i, row if row is not None else (p.ret if p.end == "return" else p.end), i * d, (i + 1) * d)))
+        it = install(Interp(fmul.body, chain(coll_oracle, std_oracle), [Ref(home, [], frame="root"), 0.5], facts=F, inline=inl, max_visits=40))
+        mat = Agg("adt", PM, "PheromoneMatrix", [TOP, TOP])
+        mat.fields[di] = d
+        mat.fields[ii] = Vec("inner")
+        it.extra_env = {home: mat}
+        it.init_state = {"heap": {"inner": cells}, "next_vec": 0}
+        n += 1
+        for p in it.run():
+            got = list(p.mstate["heap"].get("inner", ())) if p.end == "return" else p.end
+            if got != [c * 0.5 for c in cells]:
+                bad.append(("mul_assign", d, "storage %s becomes %s, expected every entry multiplied once" % (list(cells), got)))
+    ctx.check(not bad, "C19.R3", PM, "row-major-square-matrix", "%s on dimension %s: %s" % (bad[0] if bad else ("", "", "")), detail="%d scenarios" % n, loc=fnew.loc())
+    # init installs a fresh matrix of the problem's dimension filled with the configured default
+    adt = GEN + "AcoGeneration"
+    ini = F.method(adt, "init", COMP)
+    dp = F.field_index(adt, "default_pheromones")
+    inserted = []
+
+    def ins(interp, env, f, args):
+        inserted.append(load(interp, env, args[1]))
+        return NONE
+    table = {"mahf::state::registry::StateRegistry::insert": ins, "mahf::problems::VectorProblem::dimension": 3}
+    it = install(Interp(ini.body, chain(mk_oracle(table), coll_oracle, std_oracle), [Sym("self", {dp: 0.75}), Sym("problem"), Sym("state")], facts=F, inline=inl, max_visits=20))
+    it.init_state = {"heap": {}, "next_vec": 0}
+    ps = it.run()
+    good = len(ps) == 1 and ps[0].end == "return" and len(inserted) == 1 and isinstance(inserted[0], Agg) and inserted[0].name == PM and inserted[0].fields[di] == 3 \
+        and isinstance(inserted[0].fields[ii], Vec) and list(ps[0].mstate["heap"].get(inserted[0].fields[ii].vid, ())) == [0.75] * 9
+    ctx.check(good, "C19.R3", ini.key, "init-installs-default-trails", "init does not insert PheromoneMatrix::new(problem.dimension(), self.default_pheromones): %s" % inserted, loc=ini.loc())
+    ctx.count("matrix_scenarios", n)
+
+
+def it_state(p):
+    class _S:
+        pass
+    s = _S()
+    s.mstate = p.mstate
+    return s
